@@ -3,6 +3,7 @@ From Coq Require Import List Arith Bool NArith ZArith Lia.
 From Pike Require Import Model.Sys Proofs.SysInv Proofs.SysStep Proofs.SysTheorems Proofs.SysFacts Corr.SysCorr.
 From Pike Require Proofs.Lockset Proofs.Atomic.
 From Pike Require Model.LRU Model.Dispatcher Proofs.DispatcherProofs.
+From Pike Require Model.Multi Proofs.MultiProofs.
 Import ListNotations.
 
 (** after a purge the key is not resident and (when the store's delete
@@ -82,3 +83,28 @@ Theorem C18_one_section_sound : forall m l t r,
   Atomic.one_section m l = true -> Atomic.path_list l t r -> Atomic.count (Atomic.is_acq m) t <= 1 /\ Atomic.count (Atomic.is_rel m) t = 0.
 Proof. exact Atomic.one_section_sound. Qed.
 Print Assumptions C18_one_section_sound.
+
+(** ** purge in the composed multi-key cache (Model/Multi.v): in every
+    reachable state, after a purge of key k the key has no resident entry --
+    neither in its own protocol state nor in the dispatcher -- its store record
+    is gone when a store is configured and the delete succeeded, and (frame)
+    no other key's protocol state changed at all. *)
+Theorem C18_purge_in_the_composed_cache :
+  forall (K : Type) (keqb : K -> K -> bool), (forall a b, keqb a b = true <-> a = b) ->
+  forall (hash : K -> N) z lim t0 h st0 ls m k ok m', 0 < z -> (0 <= t0)%Z ->
+    Pike.Model.Multi.mrun keqb hash (Pike.Model.Multi.minit (Pike.Model.Dispatcher.mk_disp z lim) t0 h st0) ls = Some m ->
+    Pike.Model.Multi.mstep keqb hash m (Pike.Model.Multi.MPurge k ok) = Some m' ->
+    (Pike.Model.Multi.live keqb m' k = false /\ Pike.Model.Multi.held keqb hash m' k = false /\
+     (Pike.Model.Multi.m_store m = true -> ok = true -> has_store (Pike.Model.Multi.sys_of keqb m k) = true ->
+      store (Pike.Model.Multi.sys_of keqb m' k) = SNone)) /\
+    (forall k2, k2 <> k -> Pike.Model.Multi.sys_of keqb m' k2 = Pike.Model.Multi.sys_of keqb m k2).
+Proof.
+  intros K keqb Hk hash z lim t0 h st0 ls m k ok m' Hz Ht H Hs.
+  pose proof (Pike.Proofs.MultiProofs.minv_reachable keqb Hk hash z lim t0 h st0 ls m Hz Ht H) as I.
+  split; [exact (Pike.Proofs.MultiProofs.composed_purge keqb Hk hash m k ok m' I Hs)|].
+  intros k2 Hne.
+  destruct (Pike.Proofs.MultiProofs.other_keys_frame keqb Hk hash m k (Pike.Model.Multi.MPurge k ok) m' k2
+              (or_intror (or_intror (or_intror (or_introl (ex_intro _ ok eq_refl))))) Hs Hne) as [E|[(i & c & Hl & _) _]];
+    [exact E | discriminate Hl].
+Qed.
+Print Assumptions C18_purge_in_the_composed_cache.
